@@ -350,7 +350,7 @@ def gen_decode_streams(ctx):
     """byte streams for command 1 (decode on prefixes): (origin, bytes)"""
     rng = ctx.rng
     out = []
-    small = [b"{}", b"null", b"7", b"", b"[]", b"{\"a\":\"\xc3\xa9\"}", b"\xff\xfe", b"x" * 9]
+    small = [b"{}", b"null", b" null\r\n", b"7", b"", b"[]", b"{\"a\":\"\xc3\xa9\"}", b"\xff\xfe", b"x" * 9]
     msgs = [jbody(note("exit")), jbody(req(1, "shutdown")), jbody(random_message(rng, 3)), jbody(random_message(rng, 40), 1),
             jbody(random_message(rng, 10), 2)]
     # every head style, with a one-digit and a multi-digit length, followed by the start of another frame
@@ -408,10 +408,13 @@ def gen_streams_for_splits(ctx):
     """byte streams for command 2 (FramedRead under segmentation); every complete frame holds a valid Message"""
     rng = ctx.rng
     out = []
+    for f, c in corpus():
+        if "codec" in c:
+            out.append(("corpus:" + f, c["codec"]["stream"].encode("utf-8")))
     for t in TEXTS[: (3 if ctx.thorough() else 1)]:
         out.append(("lsp-session", b"".join(lspclient.frame(m) for m in lsp_session(t))))
     n = 40 if ctx.thorough() else 7
-    tails = ["", "truncated", "bad-head", "garbage", "crash", "tiny", "three-headers-partial", "newlines"]
+    tails = ["", "truncated", "bad-head", "garbage", "crash", "tiny", "three-headers-partial", "newlines", "null-body"]
     for i in range(n):
         k = rng.randint(2, 5)
         s = b"".join(frame_bytes(rng, jbody(random_message(rng), rng.choice([0, 0, 1, 2]))) for _ in range(k))
@@ -432,6 +435,9 @@ def gen_streams_for_splits(ctx):
             s += b"A: b\r\nC: d\r\nContent-Length: 2"
         elif tail == "newlines":
             s += b"\r\n\r\n"
+        elif tail == "null-body":
+            nb = rng.choice([b"null", b" null ", b"\nnull\r\n"])
+            s += head("std", len(nb)) + nb + frame_bytes(rng, jbody(random_message(rng, 3)))
         out.append(("frames+" + (tail or "clean"), s))
     return out
 
@@ -441,6 +447,16 @@ def gen_big_stream(ctx):
     bd = jbody(note("textDocument/didOpen", {"textDocument": {"uri": URI, "text": random_text(rng, 10050)}}))
     b2 = jbody(req(2, "textDocument/hover", {"textDocument": {"uri": URI}, "position": {"line": 0, "character": 1}}))
     return head("std", len(bd)) + bd + head("ctype_after", len(b2)) + b2
+
+
+def corpus():
+    out = []
+    d = os.path.join(common.VERIF, "corpus", "C19")
+    if os.path.isdir(d):
+        for f in sorted(os.listdir(d)):
+            if f.endswith(".json"):
+                out.append((f, json.load(open(os.path.join(d, f)))))
+    return out
 
 
 def cmd1(b):
@@ -532,6 +548,10 @@ def codec_level(ctx, bindir):
         cases.append(dict(origin="unsplit/" + origin, sid=sid, kind=2, params=[], line=cmd2([s])))
         for k in range(len(s) + 1):
             cases.append(dict(origin="two-way/" + origin, sid=sid, kind=2, params=[k], line=cmd2(pieces(s, [k]))))
+        for f, c in corpus():
+            if origin == "corpus:" + f:
+                cases.append(dict(origin="two-way/" + origin, sid=sid, kind=2, params=c["codec"]["cuts"],
+                                  line=cmd2(pieces(s, c["codec"]["cuts"]))))
         for _ in range(60 if ctx.thorough() else 12):
             cuts = sorted(rng.randrange(len(s) + 1) for _ in range(rng.choice([2, 3, 4, 6, 10, 25])))
             cases.append(dict(origin="multi-way/" + origin, sid=sid, kind=2, params=cuts, line=cmd2(pieces(s, cuts))))
@@ -709,11 +729,21 @@ def binary_level(ctx, exe):
     rng = ctx.rng
     fails, runs, unconfirmed, frames_checked, nonascii_frames = [], 0, 0, 0, 0
     sessions = []
+    jobs = []
+    for f, c in corpus():
+        if "binary" in c:
+            data = c["binary"]["input"].encode("utf-8")
+            sessions.append(("corpus:" + f, data))
+            jobs.append((len(sessions) - 1, c["binary"]["cuts"]))
+            for k in rng.sample(range(1, len(data)), 6):
+                jobs.append((len(sessions) - 1, [k]))
+    ncorpus = len(sessions)
     for t in TEXTS:
         data = b"".join(lspclient.frame(m) for m in lsp_session(t))
         sessions.append((t, data))
-    jobs = []
     for si, (t, data) in enumerate(sessions):
+        if si < ncorpus:
+            continue
         step = 1 if ctx.thorough() else 7
         off = rng.randrange(step)
         for k in range(1 + off, len(data), step):
